@@ -8,7 +8,7 @@ from typing import Dict, List, Optional, Set, Tuple
 from ..core import astutil as A
 from ..core.index import AnalysisError, ClassInfo, FuncInfo
 from ..selftest import M
-from .common import BASE_FILTER, BASE_IFILTER, T, attr_stores, calls_named, conds, every_origin, facts, need, subscript_stores, where
+from .common import may_conds, BASE_FILTER, BASE_IFILTER, T, attr_stores, calls_named, conds, every_origin, facts, need, subscript_stores, where
 from . import c13
 
 PRE = "ufo2ft.preProcessor"
@@ -242,7 +242,7 @@ def r094(prog, chk):
     need(len(ctor) == 1, f"cannot interpret {co.short}")
     for k in ("roundCoordinates", "dropImpliedOnCurves"):
         st = [(s, t, v) for s, t, v in subscript_stores(co) if isinstance(t.slice, ast.Constant) and t.slice.value == k]
-        ok = len(st) == 1 and A.is_const(st[0][2], False) and not conds(prog, co, st[0][0]) and cfg.dominates(cfg.node_of(st[0][0]), cfg.node_of(ctor[0]))
+        ok = len(st) == 1 and A.is_const(st[0][2], False) and not may_conds(prog, co, st[0][0]) and cfg.dominates(cfg.node_of(st[0][0]), cfg.node_of(ctor[0]))
         okk = any(kw.arg is None and T(kw.value) == T(st[0][1].value) for kw in ctor[0].keywords) if st else False
         chk.ob("R09.4", f"{co.short}|{k} = False on every path before the outline compiler is built", ok and okk, where(co, st[0][0]) if st else where(co), detail=f"kwargs['{k}'] = False",
                message=f"{co.short}: master TTFs are not built with {k}=False "
